@@ -566,7 +566,13 @@ fn dense_bounds(thorough: bool) -> (usize, usize, usize) {
 
 fn dense_count(thorough: bool) -> usize {
     let (n1, n3, nl) = dense_bounds(thorough);
-    (n1 + 1) + (n3 + 1) + (nl + 1) + vcore::sjis::tricky_strings().len()
+    (n1 + 1) + (n3 + 1) + (nl + 1) + vcore::sjis::tricky_strings().len() + name_pairs().len() + (vcore::sjis::domain().len() + 199) / 200
+}
+
+fn name_pairs() -> Vec<(String, String)> {
+    let mut pairs: Vec<(String, String)> = vcore::collide::pairs().iter().map(|(_, a, b)| (a.clone(), b.clone())).collect();
+    pairs.extend(vcore::sjis::suffix_pairs());
+    pairs
 }
 
 fn dense_value(thorough: bool, mut i: usize) -> (String, Val) {
@@ -602,6 +608,35 @@ fn dense_value(thorough: bool, mut i: usize) -> (String, Val) {
     }
     i -= nl + 1;
     let tricky = vcore::sjis::tricky_strings();
+    if i >= tricky.len() {
+        i -= tricky.len();
+        let pairs = name_pairs();
+        if i < pairs.len() {
+            // two names that collide under a common 32-bit hash / stand in a suffix relation:
+            // as the labels of two sets, as clip names and as slot names of one set
+            let (a, b) = &pairs[i];
+            let mut clip = none_clip;
+            clip[3] = Some(a.clone());
+            clip[200] = Some(b.clone());
+            let mut s1: Vec<Option<String>> = vec![None; 257];
+            s1[0] = Some(a.clone());
+            s1[1] = Some(b.clone());
+            s1[2] = Some(a.clone());
+            let mut s2: Vec<Option<String>> = vec![None; 257];
+            s2[0] = Some(b.clone());
+            s2[256] = Some(a.clone());
+            return (format!("name pair #{}", i), Val { meta: Some(b.clone()), clip, sets: vec![s1, s2] });
+        }
+        i -= pairs.len();
+        // every character of the Shift-JIS domain as a slot name, 200 per set
+        let dom = vcore::sjis::domain();
+        let chunk: Vec<char> = dom.iter().skip(i * 200).take(200).cloned().collect();
+        let mut set: Vec<Option<String>> = vec![None; 257];
+        for (k, ch) in chunk.iter().enumerate() {
+            set[1 + k] = Some(format!("{}{}", ch, k % 7));
+        }
+        return (format!("domain characters #{}", i), Val { meta: chunk.first().map(|c| c.to_string()), clip: none_clip, sets: vec![set] });
+    }
     let s = &tricky[i % tricky.len()];
     let other = &tricky[(i + 1) % tricky.len()];
     let mut clip = none_clip;
